@@ -89,6 +89,13 @@ def check_sequence(case):
     previous ContentHeader / Properties object after re-assigning every attribute"""
     obj = None
     for step in case['steps']:
+        if 'refused' in step:
+            # a header the encoder refuses; what matters is the steps after it
+            try:
+                frame.marshal(make_header({'headers': step['refused']}, 1), 1)
+            except Exception:
+                pass
+            continue
         if step.get('reuse') and obj is not None:
             obj.body_size = step['body_size']
             for name in NAMES:
@@ -113,6 +120,22 @@ def sequence_cases(tier):
                     props['headers'] = {'t': pair[which[i % len(which)]]}
             out.append(dict(c, props=props, reuse=reuse[i % len(reuse)]))
         return {'steps': out}
+    def with_refusals(case, bad, at):
+        steps_ = list(case['steps'])
+        if bad is not None:
+            steps_.insert(at % (len(steps_) + 1), {'refused': bad})
+        return {'steps': steps_}
+    plain = st.builds(steps, twins,
+                      st.lists(S.header_cases(), min_size=2, max_size=4),
+                      st.lists(st.integers(0, 2), min_size=1, max_size=4),
+                      st.lists(st.booleans(), min_size=1, max_size=4))
+    return st.builds(with_refusals, plain, st.one_of(st.none(), S.bad_tables()),
+                     st.integers(0, 4))
+
+
+def _unused_sequence_cases():
+    twins = None
+    steps = None
     return st.builds(steps, twins,
                      st.lists(S.header_cases(), min_size=2, max_size=4),
                      st.lists(st.integers(0, 2), min_size=1, max_size=4),
@@ -120,8 +143,10 @@ def sequence_cases(tier):
 
 
 def sequence_nontrivial(case):
-    return any(s.get('reuse') for s in case['steps'][1:]) or \
-        sum(1 for s in case['steps'] if 'timestamp' in s['props']) >= 2
+    real = [s for s in case['steps'] if 'refused' not in s]
+    return len(real) < len(case['steps']) or \
+        any(s.get('reuse') for s in real[1:]) or \
+        sum(1 for s in real if 'timestamp' in s['props']) >= 2
 
 
 def _present(case):
@@ -209,7 +234,10 @@ COMPONENTS = [
               nontrivial=sequence_nontrivial,
               classes=lambda c: ['steps=%d' % len(c['steps']),
                                  'reuse' if any(s.get('reuse') for s in c['steps'][1:])
-                                 else 'fresh-objects'],
+                                 else 'fresh-objects',
+                                 'with-refused-step' if any('refused' in s
+                                                            for s in c['steps'])
+                                 else 'all-valid'],
               budget={'quick': 4800, 'thorough': 96000},
               describe='2-4 headers in sequence: object re-use after re-assignment, '
                        'equal-comparing timestamps of the repeated DST hour'),
